@@ -340,8 +340,11 @@ pub fn compile(path: &Path, src: &str) -> Result<Compilation, CompilationError> 
 
     let gensym = Gensym::new();
 
+    // Link dependency-first, like separate compilation does: lambda lifting
+    // needs a callee's closure types before it rewrites its callers.
+    let link_order = packages::topo_sort_packages(&graph)?;
     let mut package_cores = Vec::new();
-    for name in graph.discovery_order.iter() {
+    for name in link_order.iter() {
         let package = graph
             .packages
             .get(name)
